@@ -6,7 +6,8 @@ import AvoVerif.Gen.Regs
 Protocol handlers for C18.
 
 ```
-c18        <hdr> <ops…>                 → e <n> <classes…> f <k> <nodes:local…> g <k> <ndata:size…> c <ncons> s <0|1> a <0|1> t <0|1> d <diag>
+c18        <hdr> <ops…>                 → e <n> <classes…> f <k> <nodes:local…> g <k> <ndata:size…> c <ncons>
+c18main    <hdr> <ops…>                 → s <0|1> a <0|1> t <0|1> d <diag>          (build.Main on the built context)
 accept-c18 <observed…> <hdr> <ops…>    → ok | first violated clause
 c18max     <mx> <nerrs>                 → number of diagnostic lines (LogError truncation; not part of the property)
 hdr = route=<ctx|pkg> f3a=<b> f3b=<b> f4=<b> f9=<b> n=<number of ops>
@@ -236,15 +237,18 @@ def b01 (b : Bool) : String := if b then "1" else "0"
 
 def respond (ops : List Op) : String :=
   let c := run Ctx.init ops
-  let o := main 0 (stdPasses lim c) c
   let fns := c.fns
   let gl := c.globs
   joinSp (["e", toString c.errs.length] ++ c.errs.map ErrClass.tag ++
     ["f", toString fns.length] ++ fns.map (fun f => s!"{f.nodeCount}:{f.localSize}") ++
     ["g", toString gl.length] ++ gl.map (fun g => s!"{g.data.length}:{g.size}") ++
-    ["c", toString c.cons.length,
-     "s", b01 (o.status != 0), "a", b01 (o.printed.contains 1), "t", b01 (o.printed.contains 2),
-     "d", toString o.diag])
+    ["c", toString c.cons.length])
+
+def respondMain (ops : List Op) : String :=
+  let c := run Ctx.init ops
+  let o := main 0 (stdPasses lim c) c
+  joinSp ["s", b01 (o.status != 0), "a", b01 (o.printed.contains 1), "t", b01 (o.printed.contains 2),
+    "d", toString o.diag]
 
 def passErr? (s : String) : Option PassErr :=
   [PassErr.memBase, .memScale, .dupLabel, .endLabel, .unknownLabel, .alloc].find? (fun e => e.tag == s)
@@ -283,6 +287,12 @@ def handle : Handler
     let c := run Ctx.init ops
     if !flagsOK h ops c then some "bad-flags" else
     some (respond ops)
+  | "c18main" :: rest => do
+    let (h, rest) ← parseHdr rest
+    let ops ← parseOps (rest.length + 1) rest
+    let c := run Ctx.init ops
+    if !flagsOK h ops c then some "bad-flags" else
+    some (respondMain ops)
   | "accept-c18" :: rest => do
     let (o, rest) ← parseObserved rest
     let (h, rest) ← parseHdr rest
@@ -300,6 +310,6 @@ def handle : Handler
   | _ => none
 
 def handlers : List (String × Handler) :=
-  ["c18", "accept-c18", "c18max", "c18lim"].map (·, handle)
+  ["c18", "c18main", "accept-c18", "c18max", "c18lim"].map (·, handle)
 
 end Avo.Drv.C18
